@@ -535,6 +535,7 @@ class Exec(object):
                 return self.iterable(p, e.args[0])
             if isinstance(f, ast.Attribute) and isinstance(f.value, ast.Name) and f.value.id == 'itertools':
                 return self.itertools_iter(p, f.attr, e)
+            if isinstance(f, ast.Name) and self.spec_mode and f.id == 'pairs': return ('typed', TUP(ATOM, ATOM), lambda x: BoolVal(True))
             if isinstance(f, ast.Name) and self.spec_mode and f.id in ('words', 'atoms', 'ints', 'regexps', 'allwords', 'configs'):
                 if f.id == 'allwords': return ('typed', WORD, lambda x: BoolVal(True))
                 if f.id == 'configs': return ('typed', REC('PDAState'), lambda x: BoolVal(True))
@@ -949,6 +950,16 @@ class Exec(object):
             v = self.ev(p, e.args[0])
             if not isinstance(v, Gen) and v.t == WORD: return v
             raise Unsupported("''.join of %s" % (v.t if not isinstance(v, Gen) else 'generator'))
+        if name in ('add', 'append') and isinstance(f.value, ast.Call) and isinstance(f.value.func, ast.Attribute) and f.value.func.attr == 'setdefault' \
+                and len(f.value.args) == 2 and self.is_empty_literal(f.value.args[1]) and len(e.args) == 1:
+            # m.setdefault(k, set()).add(x): the entry of k (the empty container if there was none) gains x; k becomes a key
+            mexpr = f.value.func.value; m = self.ev(p, mexpr)
+            if m.t.kind == 'map' and m.t.args[1].kind == 'set' and name == 'add':
+                k = self.coerce(self.ev(p, f.value.args[0]), m.t.args[0]); x = self.coerce(self.ev(p, e.args[0]), m.t.args[1].args[0])
+                cur = SV(m.t.args[1], If(Select(map_dom(m), k.z), Select(map_val(m), k.z), empty_set(m.t.args[1].args[0]).z))
+                self.store(p, mexpr, mk_map(m.t, Store(map_dom(m), k.z, BoolVal(True)), Store(map_val(m), k.z, set_add(cur, x).z)))
+                return SV(NONE, parts(NONE)[1])
+            raise Unsupported('setdefault(...).%s on %s' % (name, m.t))
         o = self.ev(p, f.value)
         args = [self.ev(p, a) if not self.is_empty_literal(a) else None for a in e.args]
         if o.t.kind == 'set':
@@ -1534,6 +1545,11 @@ class Exec(object):
         body = [s for s in self.fn.body]
         ends = self.run_block([p], body)
         for q in ends:       # falling off the end returns None
+            pra = self.c.pre_return_asserts
+            for i, a_ in enumerate(pra.get('end', []) if isinstance(pra, dict) else []):      # hints for the implicit return at the end of the body
+                g = self.spec(q, a_)
+                self.oblig(q, 'assert-at-end#%d' % (i + 1), 'assert', g, self.fn.body[-1].lineno)
+                q.pc.append(g)
             self.post(q, SV(NONE, parts(NONE)[1]), self.fn.body[-1].lineno)
         return self.obls
 
